@@ -145,8 +145,11 @@ def contexts(ctx):
                                     post = {'in': origin(d, fldv(d, r, 'input')), 'par': tags(d, fldv(d, r, 'parent_inputs')), 'res': restags(d, fldv(d, r, 'results')),
                                             'var': dict(tags(d, fldv(d, r, 'variables'))), 'def': dict(tags(d, fldv(d, r, 'definitions'))),
                                             'ic': origin(d, fldv(d, r, 'input_context')), 'rc': origin(d, fldv(d, r, 'regex_cache'))}
-                                except KeyError as e:
-                                    fam.candidates.append(Candidate(fam.name, f'{meth}-unmodelled', f'Context::{meth}: component not representable ({e})', unmodelled=hav or 'container')); continue
+                                except (KeyError, Exception) as e:
+                                    comp = {'with_variable': 'var', 'with_variables': 'var', 'with_definition': 'def', 'with_definitions': 'def', 'with_result': 'res', 'with_inupt': 'par'}[meth]
+                                    if not any(c_.role == f'{meth}-changes-{comp}' for c_ in fam.candidates):
+                                        fam.candidates.append(Candidate(fam.name, f'{meth}-changes-{comp}', f'Context::{meth}: the derived context is built through a call the scenario has no model for ({type(e).__name__}: {str(e)[:80]})', {'method': meth}, unmodelled=hav or 'container construction'))
+                                    continue
                                 exp = {'in': 'INPUT', 'par': pre['par'], 'res': pre['res'], 'var': pre['var'], 'def': pre['def'], 'ic': 'INPUT_CONTEXT', 'rc': 'REGEX_CACHE'}
                                 if meth == 'with_inupt': exp.update({'in': 'NEWINPUT', 'par': ['INPUT'] + pre['par'], 'res': []})
                                 if meth == 'with_result': exp['res'] = pre['res'] + [('NEWTITLE', 'NEWRESULT')]
@@ -199,7 +202,11 @@ DEMOS = {
     'with_definitions-changes-par': (['--split-by', '.l', '--set', '@m=1', '--select', '^.name=a', '--style', 'consise'], b'{"name":"n","l":[1]}', b'{"a":"n"}\n'),
     'with_inupt-changes-par': (['--select', '(map .l ^.name)=r', '--style', 'consise'], b'{"name":"n","l":[1,2]}', b'{"r":["n","n"]}\n'),
     'with_inupt-changes-in': (['--select', '(map .l .)=r', '--style', 'consise'], b'{"name":"n","l":[1,2]}', b'{"r":[1,2]}\n'),
-    'with_variable-changes-var': (['--select', '(set "x" 1 (set "y" 2 (+ :x :y)))=r', '--style', 'consise'], b'1', b'{"r":3}\n'),
+    'with_variable-changes-var': [(['--select', '(set "x" 1 (set "y" 2 (+ :x :y)))=r', '--style', 'consise'], b'1', b'{"r":3}\n'), (['--select', '(set "x" 1 (set "x" 2 :x))=r', '--style', 'consise'], b'1', b'{"r":2}\n'),
+                                  (['--set', 'n=100', '--select', '(set "n" 5 (+ :n 1))=r', '--select', '(+ :n 0)=o', '--style', 'consise'], b'1', b'{"r":6,"o":100}\n')],
+    'with_definition-changes-def': [(['--set', '@f=1', '--select', '(define "f" 5 (+ @f 1))=r', '--select', '(+ @f 0)=o', '--style', 'consise'], b'1', b'{"r":6,"o":1}\n'), (['--select', '(define "f" 1 (define "g" 2 (+ @f @g)))=r', '--style', 'consise'], b'1', b'{"r":3}\n')],
+    'with_variables-changes-var': [(['--set', 'a=1', '--set', 'b=2', '--select', '(+ :a :b)=r', '--style', 'consise'], b'1', b'{"r":3}\n')],
+    'with_definitions-changes-def': [(['--set', '@a=1', '--set', '@b=(+ @a 1)', '--select', '(+ @b 0)=r', '--style', 'consise'], b'1', b'{"r":2}\n')],
     'with_variable-changes-in': (['--select', '(set "x" 1 .)=r', '--style', 'consise'], b'5', b'{"r":5}\n'),
     'with_result-changes-res': (['--select', '.a=a', '--select', '.b=b', '--style', 'consise'], b'{"a":1,"b":2}', b'{"a":1,"b":2}\n'),
     'with_result-changes-in': (['--select', '.a=a', '--select', '.b=b', '--style', 'consise'], b'{"a":1,"b":2}', b'{"a":1,"b":2}\n'),
@@ -212,6 +219,8 @@ def replay_ctx(ctx, cands):
         demo = DEMOS.get(c.role)
         if demo is None:
             c.status = 'unit'; continue
-        r = run_jawk(ctx, demo[0], demo[1])
-        c.replay = {'argv': demo[0], 'stdin': show(demo[1]), 'expected': show(demo[2]), 'actual': show(r['stdout']), 'rc': r['rc']}
-        c.status = 'reproduced' if r['stdout'] != demo[2] else 'unit'
+        c.status = 'unit'
+        for dm in (demo if isinstance(demo, list) else [demo]):
+            r = run_jawk(ctx, dm[0], dm[1])
+            c.replay = {'argv': dm[0], 'stdin': show(dm[1]), 'expected': show(dm[2]), 'actual': show(r['stdout']), 'rc': r['rc']}
+            if r['stdout'] != dm[2]: c.status = 'reproduced'; break
